@@ -19,7 +19,7 @@ VERIF = os.path.dirname(os.path.dirname(os.path.abspath(__file__)))
 REPO = os.environ.get("VERIF_REPO", "/repo")
 BUILD = os.path.join(VERIF, ".build")
 COQ = os.path.join(VERIF, "coq")
-FORBIDDEN = re.compile(r"\b(Admitted|admit|Axiom|Axioms|Parameter|Parameters|Conjecture|Conjectures|Hypothesis|Hypotheses|Variable|Variables|Unset\s+Guard|bypass_check|type-in-type|impredicative-set|Admit\s+Obligations|native_compute)\b")
+FORBIDDEN = re.compile(r"\b(Admitted|admit|Axiom|Axioms|Parameter|Parameters|Conjecture|Conjectures|Hypothesis|Hypotheses|Variable|Variables|Context|Unset\s+Guard|bypass_check|type-in-type|impredicative-set|Admit\s+Obligations|native_compute)\b")
 STDLIB_AXIOMS_OK = {
     # axioms the standard library itself declares; each one that shows up is named in the evidence
     "functional_extensionality_dep", "proof_irrelevance", "JMeq_eq", "Eqdep.Eq_rect_eq.eq_rect_eq",
@@ -117,7 +117,7 @@ def forbidden_tokens(group):
                     in_section -= 1
                 for m in FORBIDDEN.finditer(line):
                     w = m.group(1)
-                    if w.startswith(("Variable", "Hypothes")) and in_section:
+                    if w.startswith(("Variable", "Hypothes", "Context")) and in_section:
                         continue  # Section variables are discharged, not axioms
                     hits.append("%s:%d: %s" % (os.path.relpath(p, VERIF), i, line.strip()))
     return hits
@@ -249,9 +249,13 @@ def run_harness(cfg_h, tier, seed, outdir, log, n_override=None, only_case=None)
 
 def load_known():
     p = os.path.join(VERIF, "known_findings.json")
-    if not os.path.exists(p):
-        return []
-    return [f for f in json.load(open(p)).get("findings", [])]
+    out = []
+    if os.path.exists(p):
+        out += json.load(open(p)).get("findings", [])
+    # per-property files being prepared (merged into known_findings.json by the coordinator)
+    for q in sorted(glob.glob(os.path.join(VERIF, "known_findings.d", "*.json"))):
+        out += json.load(open(q)).get("findings", [])
+    return out
 
 
 # ---------------------------------------------------------------- one check
